@@ -161,7 +161,7 @@ Candidates ==
     \cup {St("connectarr", a, b, 0) : a \in g.ids, b \in g.ids}
     \cup {St("disconnect", 0, b, c) : b \in g.ids, c \in 1..4}
     \cup {St("disconnectarr", 0, b, c) : b \in g.ids, c \in 1..13}
-    \cup {St(op, a, b, 0) : op \in {"setval", "setname", "setdesc"}, a \in g.ids, b \in {1, 2}}
+    \cup {St(op, a, b, 0) : op \in {"setval", "setname", "setdesc"}, a \in g.ids, b \in {0, 1, 2}}   \* 0 = back to the default
     \cup {St("setproducer", a, b, 0) : a \in g.ids, b \in {1, 2}}
     \cup {St("setmeta", a, b, 0) : a \in 1..3, b \in {1, 2}}
     \cup {St("delmeta", a, 0, 0) : a \in 1..3}
